@@ -108,21 +108,26 @@ def read_store(root):
         for fn in sorted(files):
             p = os.path.join(d, fn)
             docs = []
-            if fn.endswith('.zip'):
-                with zipfile.ZipFile(p) as zf:
-                    for m in zf.namelist():
-                        raw = zf.read(m)
-                        if m.endswith('.gz'):
-                            raw = gzip.decompress(raw)
-                        docs.append(json.loads(raw.decode()))
-            elif fn.endswith('.json.gz'):
-                with sbx._real_open(p, 'rb') as f:
-                    docs.append(json.loads(
-                        gzip.decompress(f.read()).decode()))
-            elif fn.endswith('.json'):
-                with sbx._real_open(p, 'rb') as f:
-                    docs.append(json.loads(f.read().decode()))
-            else:
+            try:
+                if fn.endswith('.zip'):
+                    with zipfile.ZipFile(p) as zf:
+                        for m in zf.namelist():
+                            raw = zf.read(m)
+                            if m.endswith('.gz'):
+                                raw = gzip.decompress(raw)
+                            docs.append(json.loads(raw.decode()))
+                elif fn.endswith('.json.gz'):
+                    with sbx._real_open(p, 'rb') as f:
+                        docs.append(json.loads(
+                            gzip.decompress(f.read()).decode()))
+                elif fn.endswith('.json'):
+                    with sbx._real_open(p, 'rb') as f:
+                        docs.append(json.loads(f.read().decode()))
+                else:
+                    continue
+            except (ValueError, OSError, EOFError, zipfile.BadZipFile):
+                # a torn file carrying a results extension is not a results
+                # file (nothing on the unchanged tree produces one)
                 continue
             n_files += 1
             recs = []
